@@ -157,8 +157,9 @@ def utility_loss_case(N):
     return fn
 
 
-def qcvar_case(N):
+def qcvar_case(N, functional=False):
     from pfhedge.nn import QuadraticCVaR
+    from pfhedge.nn import functional as F
 
     def fn(c):
         c.env["log10_decade"] = 0
@@ -169,8 +170,13 @@ def qcvar_case(N):
             m = QuadraticCVaR(10.0)
         m.lam = lam
         with patched_bisect(c, name="quadratic_cvar->bisect", check_preconditions=False) as stub:
-            rx = elem(m(x))
-            rxc = elem(m(x + cst))
+            if functional:
+                # the functional form, called twice on the caller's own sample tensor
+                rx = elem(F.quadratic_cvar(x, lam))
+                rxc = elem(F.quadratic_cvar(x + cst, lam))
+            else:
+                rx = elem(m(x))
+                rxc = elem(m(x + cst))
         tol = 1e-5
         c.check("quadratic CVaR cash-invariant (identical search on the centred sample)", api.eq(rxc, rx - cst, tol=tol))
         xs = col(x)
@@ -231,5 +237,7 @@ def cases():
     cs.append(Case("utility-losses/N2", utility_loss_case(2), encodes=enc, families=("basic", "mono", "bounds"), bounds="N=2", batch=False, timeout=60))
     cs.append(Case("utility-losses/N3", utility_loss_case(3), tier="thorough", encodes=enc, families=("basic", "mono", "bounds"), bounds="N=3", batch=False, timeout=300))
     cs.append(Case("qcvar/N2", qcvar_case(2), encodes=enc, families=lin, bounds="N=2, 1<=lam<=20, spread in [1,10)", batch=False, timeout=120, max_paths=16))
+    cs.append(Case("qcvar/N2/functional", qcvar_case(2, functional=True), encodes=enc, families=lin,
+                   bounds="N=2, functional form evaluated twice on the same tensor", batch=False, timeout=120, max_paths=16))
     cs.append(Case("qcvar/N3", qcvar_case(3), tier="thorough", encodes=enc, families=lin, bounds="N=3", batch=False, timeout=300, max_paths=16))
     return cs
